@@ -9,7 +9,7 @@ PROPS = {
         'design_ref': 'DESIGN.md §5 U1, §6 C04',
     },
     'C01': {
-        'verus': ['program_lines', 'program_state', 'interp_api', 'source_map', 'tokenizer_ranges'],
+        'verus': ['program_lines', 'program_state', 'interp_api', 'source_map', 'tokenizer_ranges', 'statements'],
         'kani': ['rng', 'arrays', 'tokenizer_matchers'],
         'level': 'proof',
         'design_ref': 'DESIGN.md §6 C01',
@@ -21,7 +21,7 @@ PROPS = {
         'design_ref': 'DESIGN.md §5 K2, §6 C02',
     },
     'C03': {
-        'verus': ['program_lines', 'program_state', 'data_cursor', 'variables'],
+        'verus': ['program_lines', 'program_state', 'data_cursor', 'variables', 'statements'],
         'kani': ['arrays', 'operators'],
         'level': 'proof',
         'design_ref': 'DESIGN.md §6 C03',
@@ -51,7 +51,7 @@ PROPS = {
         'design_ref': 'DESIGN.md §5 U7/K2, §6 C06',
     },
     'C08': {
-        'verus': ['program_state', 'interp_api'],
+        'verus': ['program_state', 'interp_api', 'statements'],
         'kani': ['operators'],
         'level': 'proof',
         'design_ref': 'DESIGN.md §6 C08',
@@ -69,7 +69,7 @@ PROPS = {
         'design_ref': 'DESIGN.md §6 C07',
     },
     'C09': {
-        'verus': ['program_state', 'interp_api', 'line_cruncher'],
+        'verus': ['program_state', 'interp_api', 'line_cruncher', 'statements'],
         'kani': [],
         'level': 'proof',
         'design_ref': 'DESIGN.md §6 C09',
@@ -87,7 +87,7 @@ PROPS = {
         'design_ref': 'DESIGN.md §6 C11',
     },
     'C16': {
-        'verus': ['program_state', 'variables'],
+        'verus': ['program_state', 'variables', 'statements'],
         'kani': ['arrays', 'operators'],
         'level': 'proof',
         'design_ref': 'DESIGN.md §6 C16',
@@ -114,10 +114,10 @@ UNDECIDED = {
     'C13': ["the complex matchers (keywords via chomp_any_keyword, string literals, numerals, REM, DATA, identifiers) enter as ASSUMED contracts (decline without moving / consume a non-empty in-line stretch / fail without moving with an in-line position); chomp_keyword and chomp_number are checked against them by Kani for bounded input lengths, the others not at all", "character boundaries, ranges ENDING on a non-blank byte for every token kind, REM/DATA extending to the end of their text, and the re-tokenization clause (tokenizing the text of a range yields that one token) are undecided", "remaining_tokens / remaining_tokens_and_ranges (for-loops over `&mut self` as an iterator) are outside Verus; the ordering lemma is stated for two consecutive next() calls"],
     'C12': ["identifier scanning with keyword lookahead, numerals, DATA items (String::from_utf8, str::parse, trim) and the composition in Tokenizer::next: undecided, including the `DATA \"a\" :` defect"],
     'C06': ["statement-level agreement (assignment / FOR / NEXT / READ kind checks in statement_analyzer.rs vs statement.rs) and the converse direction need both evaluators executed: undecided", "operand parsing below the unary tier (evaluate_parenthesized_expression: terms, calls, array subscripts) is an assumed contract", "termination of the tier loops is not claimed (exec_allows_no_decreases_clause)"],
-    'C08': ["evaluate_input_statement (consume pending reply or rewind; EXTRA IGNORED / REENTER output) and the THEN/ELSE interplay are statement dispatch: undecided, including the known IF..INPUT..ELSE defect", "reply parsing (parse_data_until_colon) is the DATA item parser: undecided"],
+    'C08': ["the THEN/ELSE interplay (an INPUT inside THEN resumes in front of ELSE, which is then a syntax error) is intended-behaviour-adjacent: the suite requires UNEXPECTED TOKEN for an ELSE reached as a statement; not decided, not reported", "EXTRA IGNORED / REENTER records are appended by evaluate_input_statement (proved to keep the state well formed) but their exact conditions are not specified here", "reply parsing (parse_data_until_colon) is the DATA item parser: an uninterpreted function of the text"],
     'C19': ["the page script (abasic-web/ts/main.ts) is TypeScript: its protocol is an assumption, transliterated in L_page_protocol; the start-up loader (start_evaluating per line with no error check in between) violates the adapter's precondition when a line fails - outside this check's reach", "Interpreter::start_evaluating / evaluate_impl contract is assumed (AsRef<str>, Tokenizer)", "output record text (Display) and error text + caret: fmt, undecided"],
     'C07': ["a failing user-function call leaves its frame on the stack (expression.rs:91-97): evaluate_user_defined_function_call iterates with into_iter().enumerate(), which Verus has no specification for, and Kani cannot execute it through Interpreter - undecided, not reported by this check", "that STOP and the host break both reach Program::break_at_current_location (statement.rs:28, interpreter.rs:115) is read, not proved"],
-    'C09': ["single-pass scans in statement.rs:90-106,343-353 rest on the cursor contracts plus an unverified reading of three loops"],
+    'C09': ["the expression evaluator is an assumed contract (a successful expression only moves the cursor forward on its line); user-defined function calls inside expressions are therefore outside the per-call work bound, as the property itself allows", "READ's loop over its variable list and PRINT's loop are not given a termination measure (partial correctness)"],
     'C10': ["the RUN arm of maybe_process_command is outside Verus (fmt in sibling arms); Kani checks it for an empty stored program only (pending reply, state, tracing flag); fresh Variables/Arrays are two assignments of Default::default(), read not proved"],
     'C11': ["end_loop returning NEXT WITHOUT FOR on a missing loop; next_data_element rebuilding the cursor (closure) - read, not proved"],
     'C16': ["end_loop re-push; Arrays wrapper (maybe_create_default_array) - read, not proved"],
